@@ -393,6 +393,7 @@ func (bkt *Bucket) checkAndSet(ki *KeyInfo, v *Payload) error {
 	}
 	ok = true
 	bkt.set(ki, v)
+	verifPoint("bucket.cas.done", ki.StringKey, v.Ver)
 	return nil
 }
 
@@ -401,6 +402,7 @@ func (bkt *Bucket) set(ki *KeyInfo, v *Payload) error {
 	if err != nil {
 		return err
 	}
+	verifPoint("bucket.set.appended", ki.StringKey, pos)
 	bkt.htree.set(ki, &v.Meta, pos)
 	bkt.hints.set(ki, &v.Meta, pos, v.RecSize, "set")
 	return nil
